@@ -1024,6 +1024,30 @@ func (e *CEnv) call(n *ast.CallExpr) *Val {
 			}
 		}
 		e.errf("bytype: no case for type %s", have)
+	case "captured":
+		// captured(f, "Fn$1", "name"): f is a closure of the named anonymous function and the
+		// result is the current value of its captured variable `name`
+		if len(n.Args) != 3 {
+			e.errf("captured(f, fn, name)")
+		}
+		fv := e.eval(n.Args[0])
+		fname := e.strArg(n.Args[1])
+		vname := e.strArg(n.Args[2])
+		if fv.Cl == nil || fv.Cl.Fn == nil || !strings.HasSuffix(fv.Cl.Fn.Name(), fname) {
+			e.errf("captured: the value is not a closure of %s", fname)
+		}
+		for i, v := range fv.Cl.Fn.FreeVars {
+			if v.Name() == vname && i < len(fv.Cl.Binds) {
+				b := fv.Cl.Binds[i]
+				if b.K == KPtr {
+					if _, isPtr := b.T.Underlying().(*types.Pointer); isPtr {
+						return e.load(ptrOf(b))
+					}
+				}
+				return b
+			}
+		}
+		e.errf("captured: %s does not capture %s", fname, vname)
 	case "isbound":
 		// isbound(f, "method", recv): f is the method value recv.method
 		if len(n.Args) != 3 {
